@@ -123,6 +123,44 @@ def check(env, rep, tier):
         predicate_rule(prog, rep, "C14.1", "register", (0,), {"endpoint"}, 1)
         predicate_rule(prog, rep, "C14.1", "deregister", (0,), {"endpoint", "token"}, 2)
 
+        # ---- C14.8 who may shrink a registry list: observers leave through deregister (matching request) or through the
+        #      notification round of their resource - no other public operation of the subject reaches a call that takes
+        #      elements out of an observer list, or entries out of the resource map
+        SHRINK_VEC = ("remove", "swap_remove", "retain", "retain_mut", "clear", "pop", "truncate", "drain", "split_off", "dedup_by", "dedup_by_key", "extract_if", "resize", "set_len")
+        SHRINK_MAP = ("remove", "remove_entry", "clear", "retain", "pop_first", "pop_last", "split_off", "extract_if")
+        n_pub = 0
+        for mb in prog.bodies.values():
+            if mb.get("promoted") or mb.get("kind") == "Closure" or not mb["path"].startswith(SUBJ) or "::tests::" in mb["id"] or "::test::" in mb["id"] \
+                    or "{closure" in mb["path"]:
+                continue
+            meth = mb["path"][len(SUBJ):]
+            if "::" in meth:
+                continue
+            n_pub += 1
+            shr = []
+            for x in reachable(prog, mb):
+                if not x["path"].startswith("observe::"):
+                    continue
+                for bb in x["blocks"]:
+                    t = bb["term"]
+                    if t["k"] != "call" or bb.get("cleanup"):
+                        continue
+                    pth = (t.get("resolved") or t.get("callee") or {}).get("path", "") or ""
+                    nm_ = pth.rsplit("::", 1)[-1]
+                    a0t = ""
+                    if t["args"] and t["args"][0]["k"] in ("copy", "move") and not t["args"][0]["place"]["p"]:
+                        a0t = prog.types[x["locals"][t["args"][0]["place"]["l"]]["ty"]]["s"]
+                    if pth.startswith("alloc::vec::Vec::<T, A>::") and nm_ in SHRINK_VEC and "observe::Observer" in a0t:
+                        shr.append("Vec::%s in %s" % (nm_, x["path"]))
+                    if pth.startswith("alloc::collections::btree::map::BTreeMap::<K, V, A>::") and nm_ in SHRINK_MAP and "observe::Resource" in a0t:
+                        shr.append("BTreeMap::%s in %s" % (nm_, x["path"]))
+                    if pth in ("core::mem::take", "core::mem::replace", "core::mem::swap") and ("observe::Observer" in a0t or "observe::Resource" in a0t):
+                        shr.append("%s in %s" % (pth, x["path"]))
+            rep.ob("C14.8", "only-deregister-and-notify-remove|" + meth, not shr or meth in ("deregister", "resource_changed"),
+                   "Subject::%s can take observers out of the registry (%s): observers may only leave through a matching deregistration or "
+                   "through the notification round of their own resource" % (meth, "; ".join(sorted(set(shr))[:3])),
+                   {"file": mb["span"]["f"], "line": mb["span"]["l"], "fn": mb["path"]})
+        rep.floor("C14.8", "subject operations examined", n_pub, 7)
         # the index a search returns is used on the vector itself: the search has to count from the front
         for meth in ("register", "deregister"):
             mb = find_body(prog, SUBJ + meth)
